@@ -421,6 +421,11 @@ pub fn expr_alts() -> Vec<EAlt> {
         call(var("require"), vec![bin("And", "&&", 12, 12, 11, var("p"), var("q")), strlit("m")])
     }));
     v.push(atom("atom.require_plain", |_| call(var("require"), vec![var("p"), strlit("m")])));
+    // a revert string written as several adjacent literals is one literal node that begins at its first part
+    v.push(atom("atom.require_multipart", |_| call(var("require"), vec![var("p"), nodep("StringLiteral", 0, vec![T("\"s\""), T("\"t\"")])])));
+    v.push(atom("atom.require_multipart3", |_| {
+        call(var("require"), vec![var("p"), nodep("StringLiteral", 0, vec![T("unicode\"aaaaaaaaaaaaaaaaaaaa\""), T("'bbbbbbbbbbbbbbbbbbbb'"), T("\"c\"")])])
+    }));
     v.push(atom("atom.assert_and", |_| call(var("assert"), vec![bin("And", "&&", 12, 12, 11, var("p"), var("q"))])));
     v.push(atom("atom.require_empty", |_| call(var("require"), vec![])));
     for (n, lit) in [
